@@ -191,6 +191,11 @@ func PreemptIn(fn string)       {}
 func NoSlowHolders() {}
 func Yield()                    { yieldNative() }
 
+// RealFormatting: the formatting helpers of log lines (ToString of messages, packs,
+// operations), which the engine normally skips, are executed from here on: a crash
+// inside them is a crash of the request.  Their results are still not looked at.
+func RealFormatting() {}
+
 // Busy: the caller is busy for a while (a critical section that takes longer than a
 // retry delay of somebody waiting for it).  Engine: a scheduling point.  Native: 400 ms.
 func Busy() { busyNative() }
